@@ -352,6 +352,13 @@ class _Helper:
         self.static = "staticmethod" in decos
         self.ok = all(d in ("staticmethod",) for d in decos) and not node.args.vararg and not node.args.kwarg and not isinstance(node, ast.AsyncFunctionDef)
         body = [s for s in node.body if not (isinstance(s, ast.Expr) and isinstance(s.value, ast.Constant))]
+        if len(body) == 1 and isinstance(body[0], ast.For) and not body[0].orelse and len(body[0].body) == 1 and isinstance(body[0].body[0], ast.Expr) \
+                and isinstance(body[0].body[0].value, ast.Yield) and body[0].body[0].value.value is not None and not decos:
+            # a generator helper `for x in xs: yield e` is the generator expression `(e for x in xs)` wherever it is called
+            lp_ = body[0]
+            gen_ = ast.GeneratorExp(elt=lp_.body[0].value.value, generators=[ast.comprehension(target=lp_.target, iter=lp_.iter, ifs=[], is_async=0)])
+            body = [ast.copy_location(ast.Return(value=gen_), lp_)]
+            ast.fix_missing_locations(body[0])
         self.body = body
         inner = [n for s in body for n in ast.walk(s)]
         if any(isinstance(n, (ast.Yield, ast.YieldFrom, ast.Await, ast.Global, ast.Nonlocal, *FuncNode, ast.ClassDef)) for n in inner):
